@@ -18,7 +18,7 @@ WHAT = {
 }
 ACTIONS = ["StartDoc", "PickLimit", "RunTest", "OnCode", "ValidateDoc", "EndDoc", "Finish"]
 FOCUS_ACTIONS = {"C05": ["OnUnknown"], "C14": ["OnTimeout"], "C15": ["OnSkip", "OnUnknown"], "C20": ["OnSkip", "OnDetached", "OnUnknown", "OnScriptExit"]}
-QUICK = {"C05": 450, "C14": 200, "C15": 400, "C20": 260}
+QUICK = {"C05": 450, "C14": 260, "C15": 400, "C20": 260}
 THOROUGH = {"C05": 4000, "C14": 400, "C15": 3000, "C20": 3000}
 
 
@@ -38,7 +38,7 @@ def shape_key(prop, sc, obs):
             ("det" if t["det"] else t["beh"] + str(t["code"])) + (f"/exp{t['exp']}" if t["exp"] != -1 else "")
             + ("/slow" if t["dur"] else "") + (f"/t{t['t']}" if t["t"] != -1 else "")
             + (":" + t["expect"] if t["expect"] != "match" else "") for t in A) + "]"
-            + (f"T{d['tfm']}" if d["tfm"] != -1 else "") + (f"skip{d['skipdef']}" if d["skipdef"] != -1 else "")
+            + (f"T{d['tfm']}" if d["tfm"] != -1 else "") + (f"deft{d['tdef']}" if d.get("tdef", -1) != -1 else "") + (f"skip{d['skipdef']}" if d["skipdef"] != -1 else "")
             + (":" + d["fault"] if d["fault"] != "no" else ""))
     return f"{'+'.join(docs)}" + (f" cliT{sc['tcli']}" if sc["tcli"] != -1 else "") + (" noshell" if sc["noshell"] else "") \
         + f" => {obs['res']} exit={obs['exit']}"
@@ -62,6 +62,8 @@ def run(prop, tier, replay=None):
         scn = body["replay"]["scenario"]
         for fld, dflt in (("dirarg", False), ("compat", False), ("rel", False)):      # replay files written before a field existed
             scn.setdefault(fld, dflt)
+        for d_ in scn["docs"]:
+            d_.setdefault("tdef", -1)
         chosen = [{"sc": scn, "predict": None}]
         states = trans = 0
     else:
